@@ -52,7 +52,7 @@ static uint32_t nvm_xfer(uint32_t start, uint8_t *buf, uint32_t size, bool wr) {
   Sim *s = g_sim;
   s->nvm_calls++;
   uint32_t n = size;
-  if (s->nvm_calls == s->nvm_fault_at) n = std::min<uint32_t>(size ? size - 1 : 0, s->nvm_short);
+  if (s->nvm_calls == s->nvm_fault_at) n = size == 0 ? 0 : s->nvm_short == 0xFFFFFFFFu ? size - 1 : s->nvm_short == 0xFFFFFFFEu ? size / 2 : std::min<uint32_t>(size - 1, s->nvm_short);
   if ((size_t)start + size > s->nvm.size()) s->c.fail("harness", "NVM access [%u,+%u) outside the configured NVM of %zu bytes", start, size, s->nvm.size());
   if (wr) memcpy(s->nvm.data() + start, buf, n); else memcpy(buf, s->nvm.data() + start, n);
   return n;
